@@ -136,6 +136,8 @@ package tensor
 //@   requires [next_pre] (!fi.isScalar && !fi.isVector ==> len(fi.shape) >= 1 && itInv(fi) && fi.track.arr != fi.shape.arr && fi.track.arr != fi.strides.arr) && (fi.isVector ==> 0 <= fi.veclikeDim && fi.veclikeDim < len(fi.track))
 //@   requires [sep] it.mask.arr != fi.track.arr
 //@   ensures [hit] result2 == nil ==> result0 == it_seq(fi, gh("it_pos", fi) - 1) && !it.mask[result0] && result1 == (fi.reverse ? 0 - (gh("it_pos", fi) - p0) : gh("it_pos", fi) - p0)
+//@   ensures [advance] gh("it_pos", fi) >= p0
+//@   ensures [next_pre_kept] (!fi.isScalar && !fi.isVector ==> len(fi.shape) >= 1 && itInv(fi) && fi.track.arr != fi.shape.arr && fi.track.arr != fi.strides.arr) && (fi.isVector ==> 0 <= fi.veclikeDim && fi.veclikeDim < len(fi.track))
 //@   ensures [hit_pos] result2 == nil ==> p0 < gh("it_pos", fi) && gh("it_pos", fi) <= it_len(fi)
 //@   ensures [skipped] forall p :: p0 <= p && p < gh("it_pos", fi) - (result2 == nil ? 1 : 0) ==> it.mask[it_seq(fi, p)]
 //@   ensures [miss] result2 != nil ==> result0 == 0 - 1 && gh("it_pos", fi) >= it_len(fi) && result1 == (fi.reverse ? 0 - (gh("it_pos", fi) - p0) : gh("it_pos", fi) - p0)
@@ -155,6 +157,8 @@ package tensor
 //@   requires [next_pre] (!fi.isScalar && !fi.isVector ==> len(fi.shape) >= 1 && itInv(fi) && fi.track.arr != fi.shape.arr && fi.track.arr != fi.strides.arr) && (fi.isVector ==> 0 <= fi.veclikeDim && fi.veclikeDim < len(fi.track))
 //@   requires [sep] it.mask.arr != fi.track.arr
 //@   ensures [hit] result2 == nil ==> result0 == it_seq(fi, gh("it_pos", fi) - 1) && it.mask[result0] && result1 == (fi.reverse ? 0 - (gh("it_pos", fi) - p0) : gh("it_pos", fi) - p0)
+//@   ensures [advance] gh("it_pos", fi) >= p0
+//@   ensures [next_pre_kept] (!fi.isScalar && !fi.isVector ==> len(fi.shape) >= 1 && itInv(fi) && fi.track.arr != fi.shape.arr && fi.track.arr != fi.strides.arr) && (fi.isVector ==> 0 <= fi.veclikeDim && fi.veclikeDim < len(fi.track))
 //@   ensures [hit_pos] result2 == nil ==> p0 < gh("it_pos", fi) && gh("it_pos", fi) <= it_len(fi)
 //@   ensures [skipped] forall p :: p0 <= p && p < gh("it_pos", fi) - (result2 == nil ? 1 : 0) ==> !it.mask[it_seq(fi, p)]
 //@   ensures [miss] result2 != nil ==> result0 == 0 - 1 && gh("it_pos", fi) >= it_len(fi) && result1 == (fi.reverse ? 0 - (gh("it_pos", fi) - p0) : gh("it_pos", fi) - p0)
